@@ -239,7 +239,7 @@ inductive Resp where
   | done
   | panic
   | badOp
-  deriving Repr, Inhabited
+  deriving DecidableEq, Repr, Inhabited
 
 /-- drops of all live views, innermost first (normal return of the closures or unwinding) -/
 def unwindStack (st : Store) : List View → Store
